@@ -55,14 +55,16 @@ DOCS = ['{a: 1}', '{a: x}', '{a: 1, b: 2}', '{x: {a: 1}}', '[{a: 1}, {a: 2}]', '
 VALUES = [
     [['obj', 'A', [['a', ['int', 1]]], None],
      ['obj', 'B', [['x', ['obj', 'A', [['a', ['int', 2]]], None]], ['n', ['list', [['str', '1e5'], ['none']]]]], None],
-     ['list', [['obj', 'A', [['a', ['int', 3]]], None], ['obj', 'A', [['a', ['int', 4]]], None]]]],
+     ['list', [['obj', 'A', [['a', ['int', 3]]], None], ['obj', 'A', [['a', ['int', 4]]], None]]],
+     ['twice', ['obj', 'A', [['a', ['int', 7]]], None]]],
     [['obj', 'A', [['a', ['str', 'yes']]], None],
      ['obj', 'A', [['a', ['str', 'x']], ['b', ['int', 5]]], None],
      ['enum', 'Color', 'green'],
      ['dict', [[['str', 'k'], ['obj', 'A', [['a', ['str', '1e5']]], None]]]]],
     [['obj', 'A', [['a', ['int', 1]]], [['zz', ['int', 2]]]],
      ['obj', 'B', [['a', ['int', 1]], ['s', ['strlike', 'S', 'hello']]], []],
-     ['strlike', 'S', 'true']],
+     ['strlike', 'S', 'true'],
+     ['twice', ['obj', 'B', [['a', ['int', 1]], ['s', ['strlike', 'S', 'hello']]], []]]],
     [['dict', [[['str', 'k'], ['int', 1]]]], ['list', [['str', 'yes'], ['float', '1.5'], ['none']]],
      ['float', '1e+16'], ['str', 'é'], ['shared']],
 ]
@@ -124,6 +126,10 @@ def make_value(m, vs):
     if vs == ['shared']:
         shared = [1, 'x']
         return {'k': [shared, {'again': shared}]}
+    if vs[0] == 'twice':
+        # one object referenced twice (YAML: anchor and alias)
+        x = m.realize(vs[1])
+        return [x, x]
     return m.realize(vs)
 
 
